@@ -78,7 +78,7 @@ impl Property for C10 {
     }
     fn runs(&self, tier: Tier) -> u64 {
         match tier {
-            Tier::Quick => 200_000,
+            Tier::Quick => 450_000,
             Tier::Thorough => 8_000_000,
         }
     }
